@@ -62,6 +62,7 @@ class ScriptedSource(ScheduleSource):
         self.hooks: List[Any] = []                    # (instant, hook, schedule id)
         self.live_list = False
         self._live: List[Any] = []
+        self.post_fail: set = set()
 
     async def add_schedule(self, schedule: ScheduledTask) -> None:
         self.added[schedule.schedule_id] = schedule
@@ -113,10 +114,14 @@ class ScriptedSource(ScheduleSource):
 
     def post_send(self, task: ScheduledTask) -> None:
         self.hooks.append((self.now_us(), "post_send", task.schedule_id))
+        fails_now = task.schedule_id in self.post_fail
+        self.post_fail.discard(task.schedule_id)
         if task.cron is None:
             self.sent.add(task.schedule_id)
             if self.live_list:
                 self._live[:] = [t for t in self._live if t.schedule_id != task.schedule_id]
+        if fails_now:
+            raise RuntimeError("post_send bookkeeping failed")      # after the message has been sent
 
 
 class RecLabelSource(LabelScheduleSource):
@@ -191,6 +196,7 @@ def run_sched(case: Dict[str, Any]) -> Dict[str, Any]:
                 src.list_latency = float(s.get("list_latency", 0.0))
                 src.cancel = set(s.get("cancel", ()))
                 src.live_list = bool(s.get("live_list"))
+                src.post_fail = set(s.get("post_fail", ()))
                 srcs.append(src)
         sched = TaskiqScheduler(b, srcs)
         end_s = ((base_us // MIN_US + case["horizon_min"]) * MIN_US + 30 * 10**6 - base_us) / 1e6
